@@ -104,6 +104,25 @@ def d7_unrepaired():
     return not start_exact and not turn_keeps
 
 
+_STORE_REPAIRED = None
+
+
+def store_repaired():
+    """True when /repo's _vbi_cache_put_page has fixes/C10-put-replaces-all-versions.diff (translate/gen_cache.py recognises
+    the text; the Search model follows it through Zvbi.Gen.Cache.putReplacesAllVersions): then no history of stores reaches
+    65536 cached pages under one page number (Lean: nowrap_repaired) and the excuse "nsub-wrap" (C17-D2) is void.
+    Unrecognised source: no excuse either."""
+    global _STORE_REPAIRED
+    if _STORE_REPAIRED is None:
+        sys.path.insert(0, os.path.join(verif.VERIF, "translate"))
+        import gen_cache
+        try:
+            _STORE_REPAIRED = bool(gen_cache.from_source()[7])
+        except SystemExit:
+            _STORE_REPAIRED = True
+    return _STORE_REPAIRED
+
+
 class Judge:
     """runs over one case; `problem` = first unexplained discrepancy, `known` = first explained one"""
     def __init__(self):
@@ -113,6 +132,7 @@ class Judge:
         self.srch, self.cur, self.cur_start = None, None, None
         self.stats = {"hits": 0, "passes": 0, "notfound": 0}
         self.d7 = d7_unrepaired()
+        self.f17 = store_repaired()      # repaired store rule: C17-D2 ("nsub-wrap") is no excuse any more
 
     def bad(self, what):
         if self.problem is None: self.problem = what
@@ -145,7 +165,7 @@ class Judge:
         wildcard or the restart rule of ure_exec (all repaired) is a violation."""
         p, s = k
         subs = [e[0] for e in dump.chain.get(p, [])]
-        if len(subs) >= 65536: return "nsub-wrap"
+        if len(subs) >= 65536 and not self.f17: return "nsub-wrap"
         # C17-D7 (only while translate/gen_search.py finds the unrepaired statements in /repo): the pass starts at a
         # page P.3F7F (direction changed there / stop position left there): search.c and the start look-up of the
         # walk take that sub-code for VBI_ANY_SUBNO - the forward stop position becomes (P, 0) and cuts the other
@@ -612,23 +632,27 @@ def gen_regex_case(rng):
 class C17(verif.Spec):
     prop = "C17"
     comp = "search"
-    lean_modules = ["ZvbiModel.Props.C17"]
+    lean_modules = ["ZvbiModel.Props.C17", "ZvbiModel.Props.C17Ure"]
     harness = "search_harness"
     timeout_per_case = 8.0
     partial_note = ("the regular expression engine ure.c and the page formatter are parameters of the model (ure.c is judged by "
                     "the oracle against Python re, and for literals by the correspondence against the leftmost-occurrence matcher); "
                     "search_exact is proved for the first forward call of a pass (SUCCESS = first matching page in pass order, "
                     "NOT_FOUND iff nothing matches), not yet for continued / backward passes as one statement; every statement about "
-                    "reachable caches excludes C17-D2 explicitly (NoWrap: fewer than 65536 cached pages per page number)")
+                    "reachable caches is stated for both source shapes of _vbi_cache_put_page (translate/gen_cache.py "
+                    "putReplacesAllVersions): as found it excludes C17-D2 explicitly (NoWrap: fewer than 65536 cached pages per page "
+                    "number), with fixes/C10-put-replaces-all-versions.diff NoWrap is a theorem (nowrap_repaired)")
     assumptions = ["A1 page formatting (vbi_format_vt_page) is a function of the cached page (no Level 2.5 look-ups for the generated pages)",
                    "A2 no cache page is referenced by the application while searching, memory limit (1 GiB) not reached, page type never 'clock page'",
                    "A3 unicode_tolower is the ASCII mapping on the generated alphabet",
-                   "A4 start page number given to vbi_search_new lies in 0x100..0x8FF (otherwise cache_network_page_stat asserts)",
-                   "A5 NoWrap: fewer than 65536 pages are cached under one page number (C17-D2, uint16_t n_subpages)"]
+                   "A4 start page number given to vbi_search_new lies in 0x100..0x8FF (otherwise cache_network_page_stat asserts)"]
     open_statements = ["Zvbi.Search.search_exact_full (whole-pass exactness over repeated calls; proved per call: search_exact_first_call, "
-                       "search_exact_first_success, search_exact_not_found, search_success_sound)",
-                       "Zvbi.Search.walk_complete_full (every cached page visited in every sweep after EVERY store history; proved with "
-                       "NoWrap as walk_complete_cached, fails at 65536 pages of one number: C17-D2)"]
+                       "search_exact_first_success, search_exact_not_found, search_success_sound)"]
+    _a5 = ("A5 NoWrap: fewer than 65536 pages are cached under one page number (C17-D2, uint16_t n_subpages) - an assumption only "
+           "while _vbi_cache_put_page has the shape with finding F17 (putReplacesAllVersions = false)")
+    _open_walk = ("Zvbi.Search.walk_complete_full false (every cached page visited in every sweep after EVERY store history, source "
+                  "shape as found; proved with NoWrap as walk_complete_cached, fails at 65536 pages of one number: C17-D2; "
+                  "walk_complete_full true - the repaired shape - is proved: walk_complete_repaired)")
     trusted_base = ["correspondence harness harness/search_harness.c and driver lean/Driver/Search.lean",
                     "Python re as the independent matcher; sender-side packet encoders lib/ttxenc.py",
                     "pre-pass: the displayed text of a transmitted page is asked from vbi_format_vt_page (formatter not modelled)"]
@@ -636,6 +660,11 @@ class C17(verif.Spec):
     def __init__(self):
         self._kind = {}
         self._hexe = None
+        # which shape of _vbi_cache_put_page the source has (the run has regenerated Generated/CacheLayout.lean by the
+        # time the evidence is written; read lazily, see store_repaired)
+        if not store_repaired():
+            self.assumptions = self.assumptions + [self._a5]
+            self.open_statements = self.open_statements + [self._open_walk]
 
     # -- helpers -------------------------------------------------------------------------------------------
     def hexe(self):
@@ -693,6 +722,10 @@ class C17(verif.Spec):
     def extra_checks(self, ctx):
         """regular expressions: real code (harness --regex) + oracle, no model side (ure.c is a parameter of the model;
         in the correspondence both sides answer `ok unsupported` to `next` after a regular expression search)"""
+        import ure_stage
+        if ctx["replay"] and ure_stage.is_ure_case(ctx["cases"][0]):   # replay dispatch: first token compile / lit / exec
+            self.extra_coverage = {"ure": {}}
+            return ure_stage.stage(ctx, self.extra_coverage["ure"], only=ctx["cases"])
         rng = ctx["rng"]
         raw = []
         if not ctx["replay"]:
@@ -733,8 +766,8 @@ class C17(verif.Spec):
             nre += 1
             w = self.oracle(c, outs.get(i, []))
             if w: res.append((w, c))
-        self.extra_coverage = {"regex_cases_oracle_only": nre}
-        return res
+        self.extra_coverage = {"regex_cases_oracle_only": nre, "ure": {}}
+        return res + ure_stage.stage(ctx, self.extra_coverage["ure"])
 
 
 if __name__ == "__main__":
